@@ -322,17 +322,10 @@ func (i *interpreter) anyToNative(caller *frame, a value) interface{} {
 				return fmt.Errorf("%s", i.errorString(caller, a))
 			}
 		}
-		if m := ms.Lookup(nil, "String"); m != nil {
-			f := i.prog.MethodValue(m)
-			if f != nil && f.Signature.Params().Len() == 0 && f.Signature.Results().Len() == 1 {
-				if p, ok := a.v.(*value); ok && p == nil {
-					return "<nil>"
-				}
-				s := i.concreteStr(callSSA(i, caller, 0, f, []value{a.v}, nil))
-				if str, ok := s.(string); ok {
-					return stringerValue(str)
-				}
-			}
+		// String() methods are not called: generated ones use reflection. The
+		// text of formatted messages is not the subject of any property.
+		if _, isPtr := a.v.(*value); isPtr {
+			return "<" + a.t.String() + ">"
 		}
 		return i.anyToNative(caller, a.v)
 	case string, bool, int, int8, int16, int32, int64, uint, uint8, uint16, uint32, uint64, uintptr, float32, float64:
